@@ -192,8 +192,14 @@ func (r *FeatureLocal) addPendingApproval(msg *api.Message) {
 	newTimer := time.AfterFunc(r.writeTimeout, func() {
 		verifPoint("WriteApproval.timerFired", ski, uint64(*msg.RequestHeader.MsgCounter))
 		r.muxResponseCB.Lock()
+		_, pending := r.pendingWriteApprovals[ski][*msg.RequestHeader.MsgCounter]
 		delete(r.pendingWriteApprovals[ski], *msg.RequestHeader.MsgCounter)
 		r.muxResponseCB.Unlock()
+
+		// the write was approved or denied in the meantime, or the device is gone
+		if !pending {
+			return
+		}
 
 		err := model.NewErrorTypeFromString("write not approved in time by application")
 		_ = msg.FeatureRemote.Device().Sender().ResultError(msg.RequestHeader, r.Address(), err)
@@ -253,6 +259,11 @@ func (r *FeatureLocal) ApproveOrDenyWrite(msg *api.Message, err model.ErrorType)
 
 	r.muxResponseCB.Lock()
 	defer r.muxResponseCB.Unlock()
+
+	// the write timed out or was denied in the meantime, it already has its result
+	if _, pending := r.pendingWriteApprovals[ski][*msg.RequestHeader.MsgCounter]; !pending {
+		return
+	}
 	delete(r.pendingWriteApprovals[ski], *msg.RequestHeader.MsgCounter)
 
 	if err.ErrorNumber == 0 {
